@@ -12,6 +12,16 @@ modes
                                                      the real _promote_branch_decls, with the iteration order of
                                                      `var_declared - base` dictated by the case
   sorted     {"lists": [[names]...]}                 CPython's sorted() on sets of names
+  threads    {"sources": [...], "threads": n, "rounds": r}
+                                                     the sources transpiled concurrently by n threads -> per source the distinct results
+  ops        {"sources": [...], "ops": [[op, i], ...], "texts": bool}
+                                                     a sequence of calls in this one process; one result per op:
+                                                       ["t", i]  emit(parse(sources[i]))
+                                                       ["p", i]  parse(sources[i]), the Program is kept      (no text)
+                                                       ["e", i]  emit(the Program kept for i)  - may be repeated: the same
+                                                                 Program object is emitted again
+                                                       ["reset"] every Reduino module is dropped from sys.modules and imported
+                                                                 again (a stand-in for a fresh interpreter; no text)
 
 Every mode accepts "adv": key.  Then the name `set` in the namespaces of parser.py and emitter.py is bound to
 a subclass of set whose iteration order is dictated by the key ("asc": sorted, "desc": reverse sorted, anything
@@ -36,6 +46,97 @@ class _Timeout(Exception):
 
 def _alarm(signum, frame):
     raise _Timeout()
+
+
+def reset_modules():
+    """drop every Reduino module and import the transpiler again: module-level state starts from scratch"""
+    global P, emit, parse
+    for m in [m for m in sys.modules if m == "Reduino" or m.startswith("Reduino.")]:
+        del sys.modules[m]
+    import importlib
+    P = importlib.import_module("Reduino.transpile.parser")
+    emit = importlib.import_module("Reduino.transpile.emitter").emit
+    parse = P.parse
+
+
+def guarded(fn, texts, per=20):
+    signal.alarm(per)
+    try:
+        cpp = fn()
+        if cpp is None:
+            return {"ok": True, "sha": None}
+        r = {"ok": True, "sha": hashlib.sha256(cpp.encode("utf-8")).hexdigest()}
+        if texts:
+            r["cpp"] = cpp
+        return r
+    except _Timeout:
+        return {"ok": False, "exc": "Timeout", "sha": "exc:Timeout"}
+    except BaseException as e:  # noqa
+        return {"ok": False, "exc": type(e).__name__, "msg": str(e)[:200], "sha": "exc:" + type(e).__name__}
+    finally:
+        signal.alarm(0)
+
+
+def run_ops(srcs, ops, texts):
+    kept = {}
+    failed = {}
+    out = []
+    for op in ops:
+        k = op[0]
+        if k == "reset":
+            reset_modules()
+            kept.clear()
+            failed.clear()
+            out.append({"ok": True, "sha": None})
+        elif k == "t":
+            out.append(guarded(lambda: emit(parse(srcs[op[1]])), texts))
+        elif k == "p":
+            def do_parse(i=op[1]):
+                kept[i] = parse(srcs[i])
+                return None
+            kept.pop(op[1], None)
+            failed.pop(op[1], None)
+            r = guarded(do_parse, texts)
+            if not r["ok"]:
+                failed[op[1]] = r
+            out.append(r)
+        elif k == "e":
+            if op[1] in failed:
+                out.append(failed[op[1]])        # the transpilation ended in parse(): that is its outcome
+            elif op[1] not in kept:
+                out.append({"ok": False, "exc": "NotParsed", "sha": "exc:NotParsed"})
+            else:
+                out.append(guarded(lambda: emit(kept[op[1]]), texts))
+        else:
+            raise SystemExit("unknown op " + str(op))
+    return out
+
+
+def run_threads(srcs, n_threads, rounds):
+    """every source is transpiled `rounds` times by each of n_threads threads running at once (switch interval 10 us), each thread in
+    its own order -> per source the set of distinct results"""
+    import random
+    import threading
+    sys.setswitchinterval(1e-5)
+    seen = [set() for _ in srcs]
+    lock = threading.Lock()
+
+    def work(k):
+        order = list(range(len(srcs))) * rounds
+        random.Random(k).shuffle(order)
+        for i in order:
+            try:
+                sha = hashlib.sha256(emit(parse(srcs[i])).encode("utf-8")).hexdigest()
+            except BaseException as e:  # noqa
+                sha = "exc:" + type(e).__name__
+            with lock:
+                seen[i].add(sha)
+    ts = [threading.Thread(target=work, args=(k,)) for k in range(n_threads)]
+    for t in ts:
+        t.start()
+    for t in ts:
+        t.join()
+    return [sorted(x) for x in seen]
 
 
 def one(src, texts, per=20):
@@ -170,6 +271,10 @@ def main():
     elif mode == "session":
         srcs = req["sources"]
         out["results"] = [one(srcs[i], req.get("texts", False)) for i in req["script"]]
+    elif mode == "threads":
+        out["results"] = run_threads(req["sources"], req.get("threads", 4), req.get("rounds", 2))
+    elif mode == "ops":
+        out["results"] = run_ops(req["sources"], req["ops"], req.get("texts", False))
     elif mode == "promote":
         out["results"] = [promote_case(c) for c in req["cases"]]
     elif mode == "sorted":
